@@ -666,3 +666,9 @@ for _p in ('C14', 'C15'):
     M(_p, 'prune-threshold-next-epoch', 'mithril-aggregator/src/services/certifier/certifier_service.rs',
       '            .clean_epoch(epoch)\n', '            .clean_epoch(epoch.next())\n', ['open_message:prune-threshold'],
       'the clean-up run when an epoch is entered deletes below the NEXT epoch: the open messages of the epoch being entered go too')
+MP('C14', 'loop-selection-ignores-ids', 'mut-c14-loop-selection-ignores-ids.diff', ['create_certificate:field:metadata'],
+   'on the layout of rf4-c14-1 (signers selected by a for loop with `contains`): every current signer is listed as soon as anybody signed')
+MP('C15', 'lock-helper-result-ignored', 'mut-c15-lock-helper-result-ignored.diff', ['create_artifact:lock-pairing'],
+   'on the layout of rf4-c15-1 (check-and-lock in a private async helper): create_artifact ignores the helper\'s refusal and spawns a second task for a locked entity type')
+MP('C04', 'preimage-forgets-m', 'mut-c04-preimage-forgets-m.diff', ['cover:protocol_parameters::ProtocolParameters.m'],
+   'on the layout of rf4-c04-3 (pre-image built by a private helper, hashed in one call): m is read but left out of the pre-image')
